@@ -5,6 +5,8 @@
 
 /// a length prefix (first byte b0 with k leading ones, then k-1 bytes) is the one the serializer
 /// emits for the size it denotes exactly when the size reaches the minimum for k bytes
+#[verifier::spinoff_prover]
+#[verifier::rlimit(200)]
 pub proof fn lemma_prefix_minimal(b0: u8, rest: Seq<u8>, first: u8)
     requires
         b0 > 0x80,
@@ -149,6 +151,7 @@ pub proof fn lemma_dec_tree_atoms_below(s: Seq<u8>, p: nat)
 }
 
 /// one atom token: accepted by the canonical check exactly when it is the serializer's encoding
+#[verifier::spinoff_prover]
 pub proof fn lemma_canon_atom_iff(s: Seq<u8>, p: nat)
     requires
         p < s.len(),
@@ -206,6 +209,8 @@ pub proof fn lemma_canon_atom_iff(s: Seq<u8>, p: nat)
 
 /// C15 converse / C16: the tokens of a decoded tree are all canonical exactly when the consumed
 /// bytes are the serialization of the tree
+#[verifier::spinoff_prover]
+#[verifier::rlimit(200)]
 pub proof fn lemma_canon_tree_iff(s: Seq<u8>, p: nat)
     requires
         dec_tree(s, p) is Some,
